@@ -101,7 +101,7 @@ def rand_file(rng, big=False):
         if rng.random() < 0.4:
             secnames.append(extra)
     rng.shuffle(secnames)
-    stripped = rng.random() < 0.06
+    stripped = rng.random() < 0.1
     nk = 1 if stripped else rng.choice([1, 1, 2, 2, 3, 4, 6] + ([9, 14] if big else []))
     names = rng.sample(NAMES, min(nk, len(NAMES)))
     while len(names) < nk:
@@ -131,6 +131,8 @@ def rand_file(rng, big=False):
             kind = rng.choice(['v3', 'raw'])
         kinds[n] = kind
         ncode = rng.choice([4, 8, 12, 64, 200, 256, 260, 400, 700, rng.randint(1, 90) * 4, rng.randint(1, 300)])
+        if kind == 'v3' and rng.random() < 0.08:
+            ncode = 0                                     # a header and nothing else
         code = rand_bytes(rng, ncode)
         if kind == 'v3':
             img = header_bytes(rng) + code
@@ -459,10 +461,16 @@ def corruptions():
 
 # ------------------------------------------------------------------ scenario export
 def states_of(path, pick):
+    """Chosen states of a simulation file (parsed) and the `act` history of the whole behaviour."""
     text = open(path).read()
     parts = tlaval._STATE_HDR.split(text)
     bodies = [re.split(r'^\\\*.*$|^=+\s*$', parts[i], flags=re.M)[0] for i in range(2, len(parts), 2)]
-    return [tlaval.parse_state(bodies[i]) for i in pick(len(bodies))], len(bodies)
+    acts = []
+    for b in bodies:
+        m = re.search(r'^/\\ act = (.*?)(?=^/\\ |\Z)', b, flags=re.M | re.S)
+        if m:
+            acts.append(tlaval.parse_value(m.group(1)))
+    return [tlaval.parse_state(bodies[i]) for i in pick(len(bodies))], acts
 
 
 def shipped_jobs():
@@ -528,22 +536,53 @@ def bind(ctx, drv, rng, thorough):
     for fn in sorted(os.listdir(res.dir)):
         if not fn.startswith('beh_'):
             continue
-        sts, n = states_of(os.path.join(res.dir, fn), lambda n: sorted({n - 1, rng.randrange(max(1, n // 2), n)}))
+        sts, hist = states_of(os.path.join(res.dir, fn), lambda n: sorted({n - 1, rng.randrange(max(1, n // 2), n)}))
         for k, st in enumerate(sts):
             f = abs_from_tla(st['file'])
             if not any(s['n'] == '.text' and s['d'] for s in f['secs']):
                 continue
             jobs.append({'id': 'scen/%s/%d' % (fn, k), 'file': f, 'gap': rng.choice([0, 8, 48])})
-        acts.append(st.get('act'))
+        acts.append([a for a in hist if a.get('a') != 'Init'])
     if not jobs:
         raise vlib.Infra('no scenario produced')
     t1, stats = run_jobs(ctx, drv, jobs, 'scen')
     nchk = check_materialisation(t1, jobs)
     ctx.log('TLC behaviours -> %d ELF objects (written, re-read: %d identical to the abstract file), loaded: %s' % (len(jobs), nchk, stats))
-    ctx.sample({'last_steps_of_TLC_behaviours': acts[:6]})
+    ctx.sample({'TLC_behaviour_environment_steps': acts[0]})
+    ctx.sample({'TLC_behaviour_environment_steps': acts[-1]})
     judge(ctx, t1, 'scen')
     account(ctx, t1, seen, counters)
     traces.append(t1)
+
+    # 2b. thorough: EVERY distinct file of the exhaustively checked model MC_Hsaco.cfg goes through the real loader
+    if thorough:
+        rd = ctx.tlc(['hsaco'], 'MC_Hsaco.tla', 'MC_Hsaco.cfg', workers=4, timeout=1800, kind='dump', extra_args=['-dump', 'st'])
+        if rd.violated or not rd.completed:
+            raise vlib.Infra('state dump of MC_Hsaco failed:\n' + rd.out[-1500:])
+        jobs1b = []
+        text = open(os.path.join(rd.dir, 'st.dump')).read()
+        for k, m in enumerate(re.finditer(r'^/\\ file = (.*?)(?=^/\\ |^State |\Z)', text, flags=re.M | re.S)):
+            f = abs_from_tla(tlaval.parse_value(m.group(1)))
+            if not any(x['n'] == '.text' and x['d'] for x in f['secs']):
+                continue
+            ti = [x['n'] for x in f['secs']].index('.text') + 1
+            names = [y['n'] for y in f['syms'] if y['x'] == ti and unlimbs(y['s']) > 0]
+            loads = [{'name': n, 'api': ['bytes', 'fs', 'elf'][(k + i) % 3]} for i, n in enumerate(names)]
+            if len(names) == 1 or k % 9 == 0:
+                loads.append({'name': '', 'api': 'bytes'})
+            if k % 9 == 4:
+                loads.append({'name': f['syms'][-1]['n'] + '.kd', 'api': 'bytes'})
+            jobs1b.append({'id': 'state/%d' % k, 'file': f, 'gap': [0, 8, 48][k % 3], 'loads': loads})
+        del text
+        if len(jobs1b) < rd.distinct // 2:
+            raise vlib.Infra('state dump: %d files from %d states' % (len(jobs1b), rd.distinct))
+        t1b, stats1b = run_jobs(ctx, drv, jobs1b, 'states')
+        check_materialisation(t1b, jobs1b)
+        ctx.log('all %d distinct files of MC_Hsaco.cfg (%d states) loaded by the real loader: %s' % (len(jobs1b), rd.distinct, stats1b))
+        judge(ctx, t1b, 'states')
+        account(ctx, t1b, seen, counters)
+        ctx.cov['model_states_replayed'] = len(jobs1b)
+        del jobs1b
 
     # 3. seeded random code objects far beyond the model's bounds
     nrand = 700 if thorough else 110
@@ -582,8 +621,11 @@ def bind(ctx, drv, rng, thorough):
                     'refusals': counters.get('Fatal', 0), 'panics': counters.get('Panic', 0),
                     'shipped_files': len(sj)})
 
-    # 5. binding self-test
-    common.selftest_binding(ctx, TSPEC, t2, corruptions())
+    # 5. binding self-test (corruptions of a trace that was accepted: meaningless on a trace with violations)
+    if ctx.violations:
+        ctx.notes.append('binding self-test skipped: the traces of this run were not accepted')
+    else:
+        common.selftest_binding(ctx, TSPEC, t2, corruptions())
     ctx.assumptions += ['debug/elf reads section and symbol tables correctly (the loader and the summariser both use it; '
                         'for written objects the summary is compared with the abstract file they were written from)',
                         'well-formed code objects: one .text, unique kernel names, one 64-byte .kd symbol per kernel, '
